@@ -297,6 +297,26 @@ def run_case(concepts, case, spec):
     if want and all(k == 'orthogonal' for k, _, _ in want):
         COL.count('tables_with_only_orthogonal_pairs')
     COL.sample({'table': case, 'expected_relations': want[:8]})
+    if hash(gen.table_key(case)) % 3 == 0 and len(ctx.objects) * len(ctx.properties) <= 40000:
+        # the FIRST relations() calls this context ever sees are cut short (an exception at a random point of the
+        # call - its length is measured on a second context built from the same table - or hardly any stack left)
+        from .. import faults
+        probe = common.build_or_skip(concepts, case)
+        total = faults.count_lines(lambda: probe.relations(True)) if probe is not None else None
+        for _ in range(rng.randint(1, 3)):
+            inc0 = rng.random() < .5
+            try:
+                if total and rng.random() < .8:
+                    faults.interrupted(lambda: ctx.relations(include_unary=inc0), rng.randint(1, max(1, total)),
+                                       rng.choice([RecursionError, MemoryError, KeyboardInterrupt]))
+                else:
+                    faults.low_stack(lambda: ctx.relations(include_unary=inc0), rng.randint(1, 14))
+            except (core.CaseTimeout, core.CaseTooLarge):
+                raise
+            except BaseException as e:
+                if not isinstance(e, Exception) and not isinstance(e, faults.Injected):
+                    raise
+        COL.count('first_relations_calls_of_a_context_cut_short')
     for inc in (False, True):
         rel = call(ctx.relations, inc) if inc else call(ctx.relations)
         if rel is RAISED:
